@@ -84,6 +84,9 @@ def handle (op : String) (args : List String) (impl : String) : Option Verdict :
     -- no event / fetch error: nothing is constructed; a failed Execute is logged, HandleEvents still returns nil
     let some (d, ret) := (match oc with
       | "noevents" => some (Delta.start 0, "ok")
+      -- refresh only: the event carries no hash / the topology cannot be fetched / cannot be stored: the handler
+      -- gives up (logs, returns nil) before it constructs the resharing
+      | "emptyhash" | "topoerr" | "storefail" => if which == "refresh" then some (Delta.start 0, "ok") else none
       | "fetcherr" => some (Delta.start 0, "err")
       | "silent" | "gto" => (handlerFrom false (table k) .never 0).head?.map (·, "ok")
       | "refused" => (handlerFrom false (table k) .refused 0).head?.map (·, "ok")
